@@ -786,6 +786,11 @@ def get_time_maps_from_alignment(
             np.where(score_onsets == u)[0] for u in score_unique_onsets
         ]
 
+    # onsets at which only ornaments were matched carry no information
+    keep = np.array([len(u) > 0 for u in score_unique_onset_idxs], dtype=bool)
+    score_unique_onsets = score_unique_onsets[keep]
+    score_unique_onset_idxs = [u for u in score_unique_onset_idxs if len(u) > 0]
+
     # For chords, we use the average performed onset as a proxy for
     # representing the "performeance time" of the position of the score
     # onsets
